@@ -27,9 +27,14 @@ class TS:
         self.params.append(const)
         self.param_constraints += list(constraints)
 
-    def t(self, label, actor, guard, update):
-        """guard(s) -> z3 Bool ; update(s) -> {var: bitvec expr} (unmentioned variables keep their value)."""
+    def t(self, label, actor, guard, update, spin=False):
+        """guard(s) -> z3 Bool ; update(s) -> {var: bitvec expr} (unmentioned variables keep their value).
+        spin=True marks a transition without lasting effect of its own (a polling time-out that may be followed by a
+        return to the same state): it is ignored when asking whether the system can still make progress."""
         self.trans.append((label, actor, guard, update))
+        self.spin = getattr(self, "spin", set())
+        if spin:
+            self.spin.add(len(self.trans) - 1)
 
 
 class Unrolled:
@@ -64,8 +69,10 @@ class Unrolled:
             opts.append(z3.And(self.act[t] == self.STUT, z3.Not(z3.Or(*guards)) if guards else z3.BoolVal(True), *frame))
             s.add(z3.Or(*opts))
 
-    def enabled(self, st):
-        return z3.Or(*[g(st) for (_l, _a, g, _u) in self.ts.trans]) if self.ts.trans else z3.BoolVal(False)
+    def enabled(self, st, progress_only=False):
+        spin = getattr(self.ts, "spin", set())
+        gs = [g(st) for k, (_l, _a, g, _u) in enumerate(self.ts.trans) if not (progress_only and k in spin)]
+        return z3.Or(*gs) if gs else z3.BoolVal(False)
 
     def check(self, *extra):
         t0 = time.time()
